@@ -140,6 +140,7 @@ class Query:
 
 _UNKNOWN_STREAK = 0
 _CROSS_LEFT = 0
+_VAC_CACHE = {}
 
 
 def _cross_check(solver):
@@ -225,7 +226,19 @@ def prove(oid, conds, goal, timeout_s, witness_vars=None, extra=(), instantiate=
                 out["detail"] = "solvers disagree: z3 unsat, cvc5 sat on the same SMT-LIB text"
                 return out
         if vacuity:
-            vr, vdt = Query.satisfiable(conds, min(timeout_s, 10), extra=extra, instantiate=instantiate)
+            # the twin (conds /\ extra /\ their axioms satisfiable) does not depend on the goal: one query per distinct
+            # set of conditions (the terms are kept alive with the cache entry so that ids are not recycled)
+            zc = [z3bool(c) for c in conds]
+            ze = list(extra)
+            key = (tuple(c.get_id() for c in zc), tuple(e.get_id() for e in ze), bool(instantiate))
+            hit = _VAC_CACHE.get(key)
+            if hit is None:
+                vr, vdt = Query.satisfiable(conds, min(timeout_s, 10), extra=extra, instantiate=instantiate)
+                if len(_VAC_CACHE) > 5000:
+                    _VAC_CACHE.clear()
+                _VAC_CACHE[key] = (vr, zc, ze)
+            else:
+                vr, vdt = hit[0], 0.0
             out["vacuity"] = vr
             out["time"] = round(dt + vdt, 4)
             if vr == "unsat":
